@@ -7,7 +7,7 @@ sugared spellings, malformed inputs); dictionary: every keyword of the three for
 """
 import sys, os, json, subprocess, hashlib
 
-OPS = ["eparse", "lparse", "lfold", "echars", "etruth", "ebudget", "estamp", "epunct", "lparseterm"]
+OPS = ["eparse", "lparse", "lfold", "echars", "etruth", "ebudget", "estamp", "epunct", "lparseterm", "emid"]
 FMTS = ["ascii", "latex", "han"]
 
 
